@@ -22,6 +22,7 @@ pub struct Entry {
     ///  str    - JSON-like strings (slicer, C10)
     ///  heavy  - adversarial for limits (C20)
     ///  stopc  - completes (NoExtension) after finite output
+    ///  capt   - rules with [capture] (captures are an observable of C11 / C12 / C14)
     pub tags: &'static str,
 }
 
@@ -161,6 +162,28 @@ stopped[lazy]: /[^"\\\x00-\x1F\x7F]*;/
     g!("lazy_vs_greedy_words", Lark, "prod str lazyg", r##"start: WORDS | upto "=" /[0-9]+/
 WORDS: /[a-zA-Z0-9_ =]*/
 upto[lazy]: /[a-zA-Z0-9_ ]*=/
+"##),
+    g!("capt_alt", Lark, "prod capt", r##"start: one "-" (two | three)
+one[capture]: /[a-z]+/
+two[capture]: /[0-9]+/ ";"
+three[capture]: /[A-Z]+/ ";"
+"##),
+    g!("capt_kv", Lark, "prod capt", r##"start: pair ("," pair)* "."
+pair[capture]: key "=" val
+key[capture]: /[a-z]+/
+val[capture="v"]: /[0-9]+/ | STR
+STR: /"[a-z ]*"/
+"##),
+    g!("capt_list", Lark, "prod capt", r##"start: "[" (item ";")+ "]" opt
+item[capture="__LIST_APPEND:items"]: /[a-z]{1,3}/ | num
+num[capture]: /[0-9]/ /[0-9]/?
+opt[capture]: "!"?
+"##),
+    g!("capt_nested", Lark, "prod capt str", r##"start: obj
+obj[capture]: "{" (member ("," member)*)? "}"
+member[capture]: name ":" (STR | obj)
+name[capture]: /[a-z]+/
+STR: /"[^"\\\x00-\x1F\x7F]*"/
 "##),
     g!("tool_call_lazy", Lark, "prod", r##"start: ( f_foo | f_bar )* f_end
 f_end: TEXT
